@@ -46,6 +46,13 @@ func zzValue(name string, n, p int) []byte {
 	return v
 }
 
+// zzTok draws a token for a pre-stored value from the real token generator, so that A2 (the
+// random source never repeats a 16-byte token) also separates stored tokens from new ones.
+func zzTok() []byte {
+	t := <-tokens
+	return append([]byte(nil), t[:]...)
+}
+
 func zzItoa(i int) string {
 	if i == 0 {
 		return "0"
@@ -256,7 +263,7 @@ func zzNewWorld(kl, nkeys, lenset int) *zzWorld {
 			L0 := lens[rt.Choice(n+".len", len(lens))]
 			v0 := zzValue(n+".v", L0, int(data))
 			fl := rt.U32(n + ".flags")
-			tok := rt.Bytes(n+".tok", tokenSize)
+			tok := zzTok()
 			dl := rt.I64(n + ".deadline")
 			rt.Assume(rt.Or(dl == 0, rt.And(dl > w.now-shift, dl < 1<<32)))
 			dl = rt.IteI64(dl != 0, dl+shift, dl)
@@ -529,7 +536,7 @@ func ZZChunkedLoss() {
 	L := n*p - short*(p-1)
 	v := zzValue("v", L, p)
 	fl := rt.U32("flags")
-	tok := rt.Bytes("tok", tokenSize)
+	tok := zzTok()
 	zzStore(w.mc, key, v, fl, tok, 0)
 	w.ref.E[0] = model.Entry{Present: true, Data: v, Flags: fl}
 	lost := 0
@@ -546,7 +553,24 @@ func ZZChunkedLoss() {
 	full := func(d []byte, f uint32) bool {
 		return len(d) == len(v) && rt.FixBool(rt.And(rt.BytesEq(d, v), f == fl))
 	}
-	switch rt.Choice("reader", 3) {
+	reader := rt.Choice("reader", 5)
+	switch reader {
+	case 3, 4:
+		// delete / touch of a key with lost entries: an outcome, and the connection stays in sync
+		var err error
+		if reader == 3 {
+			err = w.h.Delete(common.DeleteRequest{Key: key})
+		} else {
+			err = w.h.Touch(common.TouchRequest{Key: key, Exptime: 100})
+		}
+		rt.Reach("read-done")
+		rt.Assert("c05-delete-touch-outcome-is-ok-or-not-found", err == nil || err == common.ErrKeyNotFound)
+		rt.Assert("c05-delete-touch-succeeds-when-nothing-lost", lost > 0 || err == nil)
+		other := zzKey(kl)
+		other[0] = 'o'
+		e2 := w.h.Set(common.SetRequest{Key: other, Data: []byte("xy"), Flags: 3})
+		res, cnt, e3 := zzGetOne(w.h, other, 9)
+		rt.Assert("c05-connection-in-sync-after-damaged-key", e2 == nil && e3 == nil && cnt == 1 && !res.Miss && string(res.Data) == "xy" && res.Flags == 3)
 	case 0:
 		res, cnt, err := zzGetOne(w.h, key, 7)
 		rt.Reach("read-done")
@@ -635,7 +659,7 @@ func ZZChunkedMixed() {
 		}
 		x.v = zzValue(name+".v", L, p)
 		x.fl = rt.U32(name + ".flags")
-		x.tok = rt.Bytes(name+".tok", tokenSize)
+		x.tok = zzTok()
 		x.mc = model.NewMC(name, w.now)
 		zzStore(x.mc, key, x.v, x.fl, x.tok, 0)
 		return x
@@ -712,7 +736,7 @@ func ZZChunkedFault() {
 	n := 1 + rt.Choice("chunks", 3)
 	v := zzValue("v", n*p-1, p)
 	fl := rt.U32("flags")
-	tok := rt.Bytes("tok", tokenSize)
+	tok := zzTok()
 	zzStore(w.mc, key, v, fl, tok, 0)
 	statuses := []uint16{0x01, 0x02, 0x03, 0x04, 0x05, 0x81, 0x82, 0x84, 0x85, 0x86}
 	w.mc.FaultAt = rt.Choice("fault.at", n+3)
@@ -727,7 +751,9 @@ func ZZChunkedFault() {
 		return len(d) == len(v) && rt.FixBool(rt.And(rt.BytesEq(d, v), f == fl))
 	}
 	var err error
-	cmd := rt.Choice("cmd", 5)
+	var nv []byte // value a faulted write was storing
+	var nfl uint32
+	cmd := rt.Choice("cmd", 6)
 	switch cmd {
 	case 0:
 		var res common.GetResponse
@@ -748,7 +774,12 @@ func ZZChunkedFault() {
 	case 3:
 		err = w.h.Touch(common.TouchRequest{Key: key, Exptime: rt.U32("ttl")})
 	case 4:
-		err = w.h.Set(common.SetRequest{Key: key, Data: zzValue("nv", 2*p, p), Flags: rt.U32("nflags")})
+		nv, nfl = zzValue("nv", 2*p, p), rt.U32("nflags")
+		err = w.h.Set(common.SetRequest{Key: key, Data: append([]byte(nil), nv...), Flags: nfl})
+	case 5:
+		sfx := rt.Bytes("suffix", 2)
+		nv, nfl = append(append([]byte(nil), v...), sfx...), fl
+		err = w.h.Append(common.SetRequest{Key: key, Data: sfx})
 	}
 	rt.Reach("call-returned")
 	rt.Assert("c10-chunked-no-wait-for-a-reply-that-never-comes", w.mc.Starved == 0)
@@ -756,6 +787,19 @@ func ZZChunkedFault() {
 		rt.Reach("fault-delivered")
 	}
 	broken := w.mc.Faulted && w.mc.FaultKind != model.FaultStatusReply
+	// whatever happened, a reader on a fresh connection sees the old value, the new value (of a
+	// write) or a miss -- never bytes that were not written together (C05), and is not disturbed
+	// by what the faulted connection did to shared state such as the header pools (C14)
+	{
+		fresh := NewHandler(w.mc.NewConn("fresh"))
+		res, cnt, e := zzGetOne(fresh, key, 5)
+		rt.Assert("c10-chunked-other-connection-unaffected", e == nil && cnt == 1)
+		if e == nil && cnt == 1 && !res.Miss {
+			isNew := nv != nil && len(res.Data) == len(nv) && rt.FixBool(rt.And(rt.BytesEq(res.Data, nv), res.Flags == nfl))
+			rt.Logf("read after fault: len=%d old=%d new=%d err=%v", len(res.Data), len(v), len(nv), err)
+			rt.Assert("c10-chunked-read-after-fault-is-old-or-new-value", is(res.Data, res.Flags) || isNew)
+		}
+	}
 	if !broken && (err == nil || common.IsAppError(err)) {
 		// the connection stays in use (an application error becomes an error reply and the client
 		// carries on): it must be in sync -- nothing pending, and the next command is answered right
